@@ -166,22 +166,49 @@ func (p *Prog) tryReplay(o *Obligation, replayDir string) map[string]interface{}
 	call := callee + "(" + strings.Join(argNames, ", ") + ")"
 	variadicFix := ""
 	_ = variadicFix
-	gen := func(withClauses bool) string {
+	gen := func(withClauses bool, skip map[int]bool) string {
 		var sb strings.Builder
-		sb.WriteString("package jmespath\n\nimport (\n\t\"errors\"\n\t\"fmt\"\n\t\"math\"\n\t\"reflect\"\n\t\"testing\"\n)\n\n")
-		sb.WriteString("var _ = errors.New\nvar _ = math.Abs\nvar _ = reflect.DeepEqual\n")
-		sb.WriteString("func govcIntPtr(n int) *int { return &n }\n")
-		sb.WriteString("func govcEq(a, b interface{}) bool { return reflect.DeepEqual(a, b) }\n")
-		sb.WriteString("func govcIsNil(a interface{}) bool {\n\tif a == nil {\n\t\treturn true\n\t}\n\tv := reflect.ValueOf(a)\n\tswitch v.Kind() {\n\tcase reflect.Slice, reflect.Map, reflect.Ptr, reflect.Interface:\n\t\treturn v.IsNil()\n\t}\n\treturn false\n}\n\n")
-		sb.WriteString("func TestGovcReplay(t *testing.T) {\n")
+		sb.WriteString("package jmespath\n\nimport (\n\t\"encoding/json\"\n\t\"errors\"\n\t\"fmt\"\n\t\"math\"\n\t\"reflect\"\n\t\"strings\"\n\t\"testing\"\n\t\"unicode/utf8\"\n)\n\n")
+		sb.WriteString("var _ = errors.New\nvar _ = math.Abs\nvar _ = reflect.DeepEqual\nvar _ = strings.Replace\nvar _ = json.Valid\nvar _ = utf8.ValidRune\n")
+		sb.WriteString(replayHelpers)
+		sb.WriteString("\nfunc TestGovcReplay(t *testing.T) {\n")
 		for _, d := range decls {
 			sb.WriteString(d + "\n")
 		}
+		type cc struct {
+			idx   int
+			label string
+			expr  string
+		}
+		var ens []cc
 		if withClauses && ex.c != nil {
 			for i, cl := range ex.c.Requires {
-				if g, ok := cexprGo(cl.Expr, p); ok {
-					fmt.Fprintf(&sb, "\tfmt.Printf(\"GOVC-REPLAY requires %d %%v\\n\", %s)\n", i+1, g)
+				if skip[1000+i] {
+					continue
 				}
+				if g, pre, ok := compileClause(cl.Expr, p); ok && len(pre) == 0 {
+					fmt.Fprintf(&sb, "\tfmt.Printf(\"GOVC-REPLAY requires %d %%v\\n\", govcClause(func() bool { return %s })) // clause R%d\n", i+1, g, i)
+				}
+			}
+			// snapshots for old(...) in the postconditions
+			for i, cl := range ex.c.Ensures {
+				if skip[i] || cl.Kind == "assumes" {
+					continue
+				}
+				g, pre, ok := compileClause(cl.Expr, p)
+				if !ok {
+					continue
+				}
+				// make snapshot names unique per clause
+				for k, st := range pre {
+					old := fmt.Sprintf("govcOld%d", k+1)
+					nw := fmt.Sprintf("govcOld_%d_%d", i, k+1)
+					st = strings.ReplaceAll(st, old+" ", nw+" ")
+					st = strings.ReplaceAll(st, old+";", nw+";")
+					g = strings.ReplaceAll(g, old, nw)
+					fmt.Fprintf(&sb, "\t%s // clause E%d\n", st, i)
+				}
+				ens = append(ens, cc{i, clauseLabel2(cl, "ensures", i), g})
 			}
 		}
 		for _, r := range rn {
@@ -216,10 +243,8 @@ func (p *Prog) tryReplay(o *Obligation, replayDir string) map[string]interface{}
 					fmt.Fprintf(&sb, "\t\t%s, _ := %s.(%s)\n\t\t_ = %s\n", r, r, ts, r)
 				}
 			}
-			for i, cl := range ex.c.Ensures {
-				if g, ok := cexprGo(cl.Expr, p); ok {
-					fmt.Fprintf(&sb, "\t\tfmt.Printf(\"GOVC-REPLAY ensures %d [%s] %%v\\n\", %s)\n", i+1, clauseLabel2(cl, "ensures", i), g)
-				}
+			for _, e := range ens {
+				fmt.Fprintf(&sb, "\t\tfmt.Printf(\"GOVC-REPLAY ensures %d [%s] %%v\\n\", govcClause(func() bool { return %s })) // clause E%d\n", e.idx+1, e.label, e.expr, e.idx)
 			}
 			sb.WriteString("\t}\n")
 		}
@@ -229,8 +254,10 @@ func (p *Prog) tryReplay(o *Obligation, replayDir string) map[string]interface{}
 	run := func(src string) (string, bool) {
 		tf := filepath.Join(scratch, "zz_govc_replay_test.go")
 		os.WriteFile(tf, []byte(src), 0o644)
+		gf := filepath.Join(scratch, "zz_govc_generics_test.go")
+		os.WriteFile(gf, []byte(replayGenerics), 0o644)
 		ov := filepath.Join(scratch, "overlay.json")
-		os.WriteFile(ov, []byte(fmt.Sprintf(`{"Replace": {%q: %q}}`, filepath.Join(p.repo, "zz_govc_replay_test.go"), tf)), 0o644)
+		os.WriteFile(ov, []byte(fmt.Sprintf(`{"Replace": {%q: %q, %q: %q}}`, filepath.Join(p.repo, "zz_govc_replay_test.go"), tf, filepath.Join(p.repo, "zz_govc_generics_test.go"), gf)), 0o644)
 		cmd := exec.Command("go", "test", "-overlay", ov, "-tags", "verif", "-vet=off", "-timeout", "60s", "-count=1", "-v", "-run", "^TestGovcReplay$", ".")
 		cmd.Dir = p.repo
 		cmd.Env = append(os.Environ(), "GOFLAGS=-mod=mod", "GOPROXY=off", "GOSUMDB=off", "GOTOOLCHAIN=local")
@@ -238,10 +265,38 @@ func (p *Prog) tryReplay(o *Obligation, replayDir string) map[string]interface{}
 		text := string(outb)
 		return text, strings.Contains(text, "GOVC-REPLAY")
 	}
-	src := gen(true)
+	src := gen(true, nil)
 	text, ok := run(src)
 	if !ok {
-		src = gen(false)
+		// clauses that do not compile natively (type mismatches of the translation) are dropped and the
+		// test is built once more; the compiler names the lines, each clause carries its tag in a comment
+		skip := map[int]bool{}
+		lines := strings.Split(src, "\n")
+		for _, l := range strings.Split(text, "\n") {
+			if i := strings.Index(l, "zz_govc_replay_test.go:"); i >= 0 {
+				var ln int
+				fmt.Sscanf(l[i+len("zz_govc_replay_test.go:"):], "%d", &ln)
+				if ln >= 1 && ln <= len(lines) {
+					if k := strings.LastIndex(lines[ln-1], "// clause "); k >= 0 {
+						var kind byte
+						var idx int
+						fmt.Sscanf(lines[ln-1][k+len("// clause "):], "%c%d", &kind, &idx)
+						if kind == 'R' {
+							skip[1000+idx] = true
+						} else {
+							skip[idx] = true
+						}
+					}
+				}
+			}
+		}
+		if len(skip) > 0 {
+			src = gen(true, skip)
+			text, ok = run(src)
+		}
+	}
+	if !ok {
+		src = gen(false, nil)
 		text, ok = run(src)
 	}
 	out["replay_test_source"] = src
@@ -280,8 +335,31 @@ func (p *Prog) tryReplay(o *Obligation, replayDir string) map[string]interface{}
 	return out
 }
 
+// ---- native evaluation of contract clauses at replay ----
+
+// goCtx collects what a compiled clause needs besides its expression: snapshots of old(...)
+// sub-expressions, taken before the call.
+type goCtx struct {
+	p    *Prog
+	pre  []string // statements executed before the call
+	n    int
+	vars map[string]string // bound variables (quantifiers, macro parameters)
+}
+
 // cexprGo compiles a contract expression to Go source (native evaluation at replay).
+// ok is false when the expression uses something that has no native counterpart (ghost state,
+// opaque Go values ...); such a clause is simply not evaluated at replay.
 func cexprGo(e *CExpr, p *Prog) (string, bool) {
+	c := &goCtx{p: p, vars: map[string]string{}}
+	g, ok := c.compile(e)
+	if len(c.pre) > 0 {
+		return "", false // needs snapshots: use compileClause
+	}
+	return g, ok
+}
+
+func (c *goCtx) compile(e *CExpr) (string, bool) {
+	p := c.p
 	switch e.Op {
 	case "int", "bool":
 		return e.Name, true
@@ -292,6 +370,9 @@ func cexprGo(e *CExpr, p *Prog) (string, bool) {
 	case "rune":
 		return "rune(" + e.Name + ")", true
 	case "id":
+		if v, ok := c.vars[e.Name]; ok {
+			return v, true
+		}
 		if strings.HasPrefix(e.Name, "\\") {
 			return "", false
 		}
@@ -305,21 +386,43 @@ func cexprGo(e *CExpr, p *Prog) (string, bool) {
 			if _, isConst := obj.(*types.Const); isConst {
 				return e.Name, true
 			}
+			if _, isVar := obj.(*types.Var); isVar {
+				return e.Name, true
+			}
 		}
 		return "g_" + e.Name, true
+	case "old":
+		a, ok := c.compile(e.Args[0])
+		if !ok {
+			return "", false
+		}
+		c.n++
+		name := fmt.Sprintf("govcOld%d", c.n)
+		c.pre = append(c.pre, fmt.Sprintf("%s := %s; _ = %s", name, a, name))
+		return name, true
 	case "field":
-		a, ok := cexprGo(e.Args[0], p)
+		a, ok := c.compile(e.Args[0])
+		if e.Args[0].Op == "id" && (e.Name == "Expression" || e.Name == "Offset" || e.Name == "msg") {
+			return "govcSE(" + a + ")." + e.Name, ok
+		}
 		return a + "." + e.Name, ok
 	case "index":
-		a, ok1 := cexprGo(e.Args[0], p)
-		b, ok2 := cexprGo(e.Args[1], p)
+		a, ok1 := c.compile(e.Args[0])
+		b, ok2 := c.compile(e.Args[1])
 		return a + "[" + b + "]", ok1 && ok2
 	case "un":
-		a, ok := cexprGo(e.Args[0], p)
+		a, ok := c.compile(e.Args[0])
 		return "(" + e.Name + a + ")", ok
+	case "cond":
+		a, ok1 := c.compile(e.Args[0])
+		b, ok2 := c.compile(e.Args[1])
+		d, ok3 := c.compile(e.Args[2])
+		return "govcIf(" + a + ", func() interface{} { return " + b + " }, func() interface{} { return " + d + " })", ok1 && ok2 && ok3
+	case "forall", "exists":
+		return c.quant(e)
 	case "bin":
-		a, ok1 := cexprGo(e.Args[0], p)
-		b, ok2 := cexprGo(e.Args[1], p)
+		a, ok1 := c.compile(e.Args[0])
+		b, ok2 := c.compile(e.Args[1])
 		if !ok1 || !ok2 {
 			return "", false
 		}
@@ -335,33 +438,378 @@ func cexprGo(e *CExpr, p *Prog) (string, bool) {
 		}
 		return "(" + a + " " + e.Name + " " + b + ")", true
 	case "call":
-		var as []string
-		for _, x := range e.Args {
-			a, ok := cexprGo(x, p)
-			if !ok {
-				return "", false
-			}
-			as = append(as, a)
-		}
-		switch e.Name {
-		case "len":
-			return "len(" + as[0] + ")", true
-		case "isNil":
-			return "govcIsNil(" + as[0] + ")", true
-		}
-		if m, ok := p.cs.Macros[e.Name]; ok && len(m.Params) == len(as) {
-			// expand textually through a closure
-			body, ok := cexprGo(m.Body, p)
-			if !ok {
-				return "", false
-			}
-			_ = body
-			return "", false
-		}
-		if sd, ok := p.specs[e.Name]; ok && sd.Tuple == nil {
-			return e.Name + "(" + strings.Join(as, ", ") + ")", true
-		}
-		return "", false
+		return c.call(e)
 	}
 	return "", false
 }
+
+// quant: bounded quantifiers only -  forall k int :: lo <= k && k < hi [&& more] ==> body,
+// and  forall k string :: mapHas(m, k) ==> body.
+func (c *goCtx) quant(e *CExpr) (string, bool) {
+	body := e.Args[0]
+	if body.Op != "bin" || body.Name != "==>" {
+		if body.Op == "forall" || body.Op == "exists" {
+			return "", false
+		}
+		return "", false
+	}
+	var conj []*CExpr
+	var flat func(x *CExpr)
+	flat = func(x *CExpr) {
+		if x.Op == "bin" && x.Name == "&&" {
+			flat(x.Args[0])
+			flat(x.Args[1])
+			return
+		}
+		conj = append(conj, x)
+	}
+	flat(body.Args[0])
+	isVar := func(x *CExpr) bool { return x.Op == "id" && x.Name == e.Var }
+	v := fmt.Sprintf("govcQ%d", c.n)
+	c.n++
+	saved, had := c.vars[e.Var]
+	c.vars[e.Var] = v
+	defer func() {
+		if had {
+			c.vars[e.Var] = saved
+		} else {
+			delete(c.vars, e.Var)
+		}
+	}()
+	var lo, hi string
+	var rest []string
+	mapOf := ""
+	for _, x := range conj {
+		if x.Op == "bin" && (x.Name == "<=" || x.Name == "<") && isVar(x.Args[1]) && lo == "" {
+			delete(c.vars, e.Var)
+			a, ok := c.compile(x.Args[0])
+			c.vars[e.Var] = v
+			if !ok {
+				return "", false
+			}
+			lo = a
+			if x.Name == "<" {
+				lo = "(" + a + ") + 1"
+			}
+			continue
+		}
+		if x.Op == "bin" && (x.Name == "<" || x.Name == "<=") && isVar(x.Args[0]) && hi == "" {
+			delete(c.vars, e.Var)
+			a, ok := c.compile(x.Args[1])
+			c.vars[e.Var] = v
+			if !ok {
+				return "", false
+			}
+			hi = a
+			if x.Name == "<=" {
+				hi = "(" + a + ") + 1"
+			}
+			continue
+		}
+		if x.Op == "call" && x.Name == "mapHas" && len(x.Args) == 2 && isVar(x.Args[1]) && mapOf == "" {
+			a, ok := c.compile(x.Args[0])
+			if !ok {
+				return "", false
+			}
+			mapOf = a
+			continue
+		}
+		a, ok := c.compile(x)
+		if !ok {
+			return "", false
+		}
+		rest = append(rest, a)
+	}
+	b, ok := c.compile(body.Args[1])
+	if !ok {
+		return "", false
+	}
+	cond := "true"
+	if len(rest) > 0 {
+		cond = strings.Join(rest, " && ")
+	}
+	want, other := "false", "true"
+	test := fmt.Sprintf("(%s) && !(%s)", cond, b)
+	if e.Op == "exists" {
+		return "", false
+	}
+	switch {
+	case mapOf != "":
+		return fmt.Sprintf("func() bool { for %s := range %s { if %s { return %s } }; return %s }()", v, mapOf, test, want, other), true
+	case lo != "" && hi != "":
+		return fmt.Sprintf("func() bool { for %s := int(%s); %s < int(%s); %s++ { if %s { return %s } }; return %s }()", v, lo, v, hi, v, test, want, other), true
+	}
+	return "", false
+}
+
+func (c *goCtx) call(e *CExpr) (string, bool) {
+	p := c.p
+	if m, ok := p.cs.Macros[e.Name]; ok && len(m.Params) == len(e.Args) {
+		// macro: compile the body with the parameters bound to the compiled arguments
+		saved := map[string]string{}
+		had := map[string]bool{}
+		var as []string
+		for _, x := range e.Args {
+			a, ok := c.compile(x)
+			if !ok {
+				return "", false
+			}
+			as = append(as, "("+a+")")
+		}
+		for i, prm := range m.Params {
+			saved[prm], had[prm] = c.vars[prm]
+			c.vars[prm] = as[i]
+		}
+		body, ok := c.compile(m.Body)
+		for _, prm := range m.Params {
+			if had[prm] {
+				c.vars[prm] = saved[prm]
+			} else {
+				delete(c.vars, prm)
+			}
+		}
+		return "(" + body + ")", ok
+	}
+	var as []string
+	for _, x := range e.Args {
+		a, ok := c.compile(x)
+		if !ok {
+			return "", false
+		}
+		as = append(as, a)
+	}
+	arg := func(i int) string {
+		if i < len(as) {
+			return as[i]
+		}
+		return "nil"
+	}
+	switch e.Name {
+	case "len":
+		return "len(" + arg(0) + ")", true
+	case "isNil":
+		return "govcIsNil(" + arg(0) + ")", true
+	case "same":
+		return "govcEq(" + arg(0) + ", " + arg(1) + ")", true
+	case "fst", "snd", "thd":
+		// projections of a spec function with several results
+		if len(e.Args) == 1 && e.Args[0].Op == "call" {
+			if sd, ok := p.specs[e.Args[0].Name]; ok && len(sd.Tuple) >= 2 && len(sd.Tuple) <= 3 {
+				return fmt.Sprintf("govc%s%d(%s)", strings.Title(e.Name), len(sd.Tuple), arg(0)), true
+			}
+		}
+		return "", false
+	case "isNum", "isStr", "isBool", "isArr", "isObj", "isExpRef", "isIntr", "isGo", "isInt", "isTok", "isIntPtrs":
+		return fmt.Sprintf("govcIs(%q, %s)", e.Name, arg(0)), true
+	case "numOf":
+		return "(" + arg(0) + ").(float64)", true
+	case "strOf":
+		return "(" + arg(0) + ").(string)", true
+	case "boolOf":
+		return "(" + arg(0) + ").(bool)", true
+	case "intOf":
+		return "(" + arg(0) + ").(int)", true
+	case "tokOf":
+		return "(" + arg(0) + ").(tokType)", true
+	case "refOf":
+		return "(" + arg(0) + ").(expRef).ref", true
+	case "intrOf":
+		return "(" + arg(0) + ").(*treeInterpreter)", true
+	case "arrOf":
+		return "govcArr(" + arg(0) + ")", true
+	case "objOf":
+		return "govcObj(" + arg(0) + ")", true
+	case "arrLen":
+		return "len(govcArr(" + arg(0) + "))", true
+	case "arrAt":
+		return "govcArr(" + arg(0) + ")[" + arg(1) + "]", true
+	case "objSize":
+		return "len(govcObj(" + arg(0) + "))", true
+	case "objHas":
+		return "govcHas(govcObj(" + arg(0) + "), " + arg(1) + ")", true
+	case "objAt":
+		return "govcObj(" + arg(0) + ")[" + arg(1) + "]", true
+	case "mapHas":
+		return "govcHas(" + arg(0) + ", " + arg(1) + ")", true
+	case "mkStr", "mkNum", "mkBool":
+		return "interface{}(" + arg(0) + ")", true
+	case "mkArr":
+		return "interface{}(" + arg(0) + ")", true
+	case "kid":
+		return "(" + arg(0) + ").children[" + arg(1) + "]", true
+	case "nkids":
+		return "len((" + arg(0) + ").children)", true
+	case "kindOf":
+		return "govcKind(" + arg(0) + ")", true
+	case "finite":
+		return "(!math.IsNaN(" + arg(0) + ") && !math.IsInf(" + arg(0) + ", 0))", true
+	case "isNaN":
+		return "math.IsNaN(" + arg(0) + ")", true
+	case "isInf":
+		return "math.IsInf(" + arg(0) + ", 0)", true
+	case "inRange":
+		return "true", true
+	case "isSyntaxError":
+		return "govcIsSE(" + arg(0) + ")", true
+	case "substr":
+		return "(" + arg(0) + ")[" + arg(1) + ":" + arg(2) + "]", true
+	case "byteAt":
+		return "(" + arg(0) + ")[" + arg(1) + "]", true
+	case "toRune":
+		return "rune(" + arg(0) + ")", true
+	case "toByte":
+		return "byte(" + arg(0) + ")", true
+	case "runesOf":
+		return "[]rune(" + arg(0) + ")", true
+	case "bytesOf":
+		return "[]byte(" + arg(0) + ")", true
+	case "strOfBytes":
+		return "string(" + arg(0) + ")", true
+	case "validRune":
+		return "utf8.ValidRune(" + arg(0) + ")", true
+	case "replaceAll":
+		return "strings.Replace(" + arg(0) + ", " + arg(1) + ", " + arg(2) + ", -1)", true
+	case "jsonDecodeStrOf":
+		return "govcJSONStr(" + arg(0) + ")", true
+	case "jsonDecodeOf":
+		return "govcJSONVal(" + arg(0) + ")", true
+	case "jsonValid":
+		return "json.Valid(" + arg(0) + ")", true
+	case "bp":
+		return "bindingPowers[" + arg(0) + "]", true
+	case "theFunctionTable":
+		return "newFunctionCaller().functionTable", true
+	case "emptyObj":
+		return "map[string]interface{}{}", true
+	case "emptyStrs":
+		return "[]string{}", true
+	case "nilNodes":
+		return "[]ASTNode(nil)", true
+	}
+	if _, ok := p.specs[e.Name]; ok {
+		if obj := p.pkg.Pkg.Scope().Lookup(e.Name); obj != nil {
+			return e.Name + "(" + strings.Join(as, ", ") + ")", true
+		}
+	}
+	return "", false
+}
+
+// compileClause: the Go source of a clause plus the snapshot statements it needs before the call.
+func compileClause(e *CExpr, p *Prog) (expr string, pre []string, ok bool) {
+	c := &goCtx{p: p, vars: map[string]string{}}
+	g, ok := c.compile(e)
+	return g, c.pre, ok
+}
+
+// replayHelpers: support code of the injected test file.
+const replayHelpers = `
+func govcIntPtr(n int) *int { return &n }
+func govcEq(a, b interface{}) bool {
+	if fa, ok := a.(float64); ok {
+		if fb, ok := b.(float64); ok {
+			return fa == fb || (math.IsNaN(fa) && math.IsNaN(fb))
+		}
+	}
+	if ea, ok := a.(error); ok && b == nil {
+		return ea == nil
+	}
+	return reflect.DeepEqual(a, b) || (govcIsNil(a) && govcIsNil(b) && reflect.TypeOf(a) == reflect.TypeOf(b))
+}
+func govcIsNil(a interface{}) bool {
+	if a == nil {
+		return true
+	}
+	v := reflect.ValueOf(a)
+	switch v.Kind() {
+	case reflect.Slice, reflect.Map, reflect.Ptr, reflect.Interface:
+		return v.IsNil()
+	}
+	return false
+}
+func govcIs(what string, v interface{}) bool {
+	switch what {
+	case "isNum":
+		_, ok := v.(float64)
+		return ok
+	case "isStr":
+		_, ok := v.(string)
+		return ok
+	case "isBool":
+		_, ok := v.(bool)
+		return ok
+	case "isArr":
+		_, ok := v.([]interface{})
+		return ok
+	case "isObj":
+		_, ok := v.(map[string]interface{})
+		return ok
+	case "isExpRef":
+		_, ok := v.(expRef)
+		return ok
+	case "isIntr":
+		_, ok := v.(*treeInterpreter)
+		return ok
+	case "isInt":
+		_, ok := v.(int)
+		return ok
+	case "isTok":
+		_, ok := v.(tokType)
+		return ok
+	case "isIntPtrs":
+		_, ok := v.([]*int)
+		return ok
+	case "isGo":
+		switch v.(type) {
+		case nil, bool, float64, string, []interface{}, map[string]interface{}, expRef, *treeInterpreter, int, tokType, []*int:
+			return false
+		}
+		return true
+	}
+	return false
+}
+func govcArr(v interface{}) []interface{} { a, _ := v.([]interface{}); return a }
+func govcObj(v interface{}) map[string]interface{} { m, _ := v.(map[string]interface{}); return m }
+func govcHas(m interface{}, k interface{}) bool {
+	v := reflect.ValueOf(m)
+	if v.Kind() != reflect.Map {
+		return false
+	}
+	return v.MapIndex(reflect.ValueOf(k)).IsValid()
+}
+func govcKind(v interface{}) int {
+	if v == nil {
+		return 0
+	}
+	return int(reflect.TypeOf(v).Kind())
+}
+func govcIsSE(e interface{}) bool { _, ok := e.(SyntaxError); return ok }
+func govcSE(e interface{}) SyntaxError { s, _ := e.(SyntaxError); return s }
+func govcJSONStr(b []byte) string { var s string; json.Unmarshal(b, &s); return s }
+func govcJSONVal(b []byte) interface{} { var v interface{}; json.Unmarshal(b, &v); return v }
+func govcIf(c bool, a, b func() interface{}) interface{} {
+	if c {
+		return a()
+	}
+	return b()
+}
+func govcClause(f func() bool) (res string) {
+	defer func() {
+		if r := recover(); r != nil {
+			res = fmt.Sprintf("not-evaluated (%v)", r)
+		}
+	}()
+	return fmt.Sprint(f())
+}
+`
+
+// generic tuple projections live in their own file: the module's language version predates generics
+const replayGenerics = `//go:build go1.18
+
+package jmespath
+
+func govcFst2[A, B any](a A, b B) A       { return a }
+func govcSnd2[A, B any](a A, b B) B       { return b }
+func govcFst3[A, B, C any](a A, b B, c C) A { return a }
+func govcSnd3[A, B, C any](a A, b B, c C) B { return b }
+func govcThd3[A, B, C any](a A, b B, c C) C { return c }
+`
